@@ -381,6 +381,7 @@ def _livepatch__function(old_func, new_func, modname, cache, visit_stack):
     # Update function code, defaults, doc.
     old_func.__code__ = new_func.__code__
     old_func.__defaults__ = new_func.__defaults__
+    old_func.__kwdefaults__ = new_func.__kwdefaults__
     old_func.__doc__ = new_func.__doc__
     # Update dict.
     livepatch(old_func.__dict__, new_func.__dict__,
